@@ -6,6 +6,7 @@ import Generated.C20PkgState
 import Generated.C20Resets
 import Generated.C20Sorts
 import Generated.C20Stacks
+import Generated.C20Shared
 import Model.SortKeys
 import Model.Stack
 import Drivers.Common
@@ -114,7 +115,11 @@ def showBad : String :=
   let st := (Model.Stack.unsafeEffects Generated.C20Stacks.containers).map
     (fun u => s!"process-wide slice {u.1} can be taken below its floor by {u.2.1} {u.2.2}")
   let sts := Generated.C20Stacks.shape.map (fun s => s!"shape {s}")
-  let all := bs ++ bc ++ sh ++ br ++ up ++ en ++ ts ++ nf ++ ss ++ st ++ sts
+  let sr := (C20Sites.badShared C20Sites.cells C20Sites.KnownCells C20Sites.sharedArgued Generated.C20Shared.refs).map
+    (fun r => s!"mutable reference handed out of package-level variable {r.pkg}.{r.name} ({r.referent}: {", ".intercalate r.mutableFields} assigned; used as a value at {r.escapes} place(s))")
+  let srs := (C20Sites.staleShared C20Sites.sharedArgued Generated.C20Shared.refs).map (fun s => s!"stale shared-reference entry {s}") ++
+    Generated.C20Shared.shape.map (fun s => s!"shape {s}")
+  let all := bs ++ bc ++ sh ++ br ++ up ++ en ++ ts ++ nf ++ ss ++ st ++ sts ++ sr ++ srs
   if all.isEmpty then "-" else " ; ".intercalate all
 
 def obContainer : Option Model.Stack.Container :=
